@@ -50,7 +50,7 @@ def lookup(f):
 
 
 def is_concrete(v):
-    if isinstance(v, (z3.ExprRef, Ref, Snapshot, SymObj, SymSeq, Choice, SymEnum, BitSet, FlagSet, TailSeq,
+    if isinstance(v, (z3.ExprRef, Ref, Snapshot, SymObj, SymSeq, Choice, SymEnum, BitSet, FlagSet, TailSeq, SymMapping,
                       Closure, Func, BoundMethod, BuiltinMethod, Partial, Opaque, Exc)):
         return False
     if isinstance(v, tuple):
@@ -815,6 +815,8 @@ def isinstance_(I, ctx, v, t):
         return issubclass(v.cls, t)
     if isinstance(v, (tuple, SymSeq)):
         return issubclass(tuple, t)
+    if isinstance(v, SymMapping):
+        return issubclass(dict, t)
     if isinstance(v, SymEnum):
         return issubclass(v.cls, t)
     if isinstance(v, Opaque):
@@ -1188,6 +1190,14 @@ def call_method(I, ctx, recv, name, args, kwargs, node):
         if fn is None:
             raise PyvcUnsupported(f'method tuple.{name} at {I.where(node)}')
         return fn(I, ctx, None, seq, ctx.heap, args, kwargs, node)
+    if isinstance(recv, SymMapping):
+        if name == 'items':
+            return recv.pairs
+        if name == 'keys':
+            return tuple(k for k, _ in recv.pairs)
+        if name == 'values':
+            return tuple(v for _, v in recv.pairs)
+        raise PyvcUnsupported(f'mapping method {name}')
     if type(recv).__name__ == 'AbstractHandType':
         if name in ('from_game', 'from_game_or_none'):
             return abstract_from_game(I, ctx, recv, args, node, name == 'from_game_or_none')
